@@ -28,6 +28,15 @@ func vpPolygon(shape, k int) (*Mesh, []Coord) {
 			pts = append(pts, XY(float64(i), 0))
 		}
 		pts = append(pts, XY(6, 0), XY(6, 1), XY(2, 1), XY(2, 3), XY(0, 3))
+	case 2:
+		// a gently bulging bottom side: k interior vertices 0.1 below the
+		// corners' line; each turns by less than the epsilon used below, but
+		// once a neighbour is removed the remaining ones turn by more
+		pts = append(pts, XY(0, 0))
+		for i := 1; i <= k; i++ {
+			pts = append(pts, XY(float64(i), -0.1))
+		}
+		pts = append(pts, XY(float64(k+1), 0), XY(float64(k+1), 2), XY(0, 2))
 	}
 	m := NewMesh()
 	for i, p := range pts {
@@ -75,6 +84,36 @@ func VP_C10_Colinear2D() {
 	vpVerticesSubset(res, pts, "EliminateColinear")
 	vp.Assert(res.NumSegments() == len(pts)-k, "EliminateColinear removes exactly the colinear vertices")
 	vp.Assert(vpSignedArea(res) == area, "EliminateColinear preserves the enclosed (signed) area")
+	vp.Reach("end")
+}
+
+// VP_C10_NearColinear2D: EliminateColinear with a coarse epsilon on a gently
+// curved run (shape 2): a vertex is only removed while its current
+// neighbours make it nearly colinear, so the run is never consumed entirely,
+// the polygon stays closed and oriented and the area changes by at most the
+// sliver of one removed vertex - for every map iteration order.
+func VP_C10_NearColinear2D() {
+	k := vp.Param("k")
+	m, pts := vpPolygon(2, k)
+	area := vpSignedArea(m)
+	vp.NondetMapOrder("EliminateColinear")
+	vp.StepLimit(400000)
+	// turn at a bulge vertex: 1-cos(atan 0.1) = 0.00496 < 0.008; after a
+	// neighbour is gone: 1-cos(atan 0.05 + atan 0.1) = 0.0112 > 0.008
+	res := m.EliminateColinear(0.008)
+	vp.StepLimitOff()
+	vpClosedOriented(res, "EliminateColinear")
+	vpVerticesSubset(res, pts, "EliminateColinear")
+	kept := 0
+	for _, v := range res.VertexSlice() {
+		if v.Y == -0.1 {
+			kept++
+		}
+	}
+	vp.Assert(kept >= 1, "the last vertex of the run turns by more than epsilon once its neighbours are gone and is kept")
+	vp.Assert(kept < k, "an eligible vertex is removed")
+	d := vpSignedArea(res) - area
+	vp.Assert(d <= 0.051*float64(k) && d >= -0.051*float64(k), "area changes by at most one 0.05 sliver per removed vertex")
 	vp.Reach("end")
 }
 
